@@ -49,7 +49,7 @@ def pair_expected(pre, post, dsteps, dt, lr_post, lr_pre, tc_post, tc_pre, mode)
     return dw
 
 
-def run_pair(cls, pre, post, dsteps, maxsteps, dt, lr_post, lr_pre, tc_post, tc_pre, mode, delayed=True, check_parts=True):
+def run_pair(cls, pre, post, dsteps, maxsteps, dt, lr_post, lr_pre, tc_post, tc_pre, mode, delayed=True, check_parts=True, step=None):
     T, B, I = pre.shape
     O = post.shape[2]
     conn, neuron, layer = build(I, O, B, dt, dsteps, maxsteps)
@@ -60,7 +60,7 @@ def run_pair(cls, pre, post, dsteps, maxsteps, dt, lr_post, lr_pre, tc_post, tc_
     with torch.no_grad():
         for t in range(T):
             layer(pre[t].float(), neuron_kwargs={"override": post[t]})
-            tr()
+            tr() if step is None else step(tr)
             if check_parts:
                 p, n = conn.updater.weight.pos, conn.updater.weight.neg
                 for nm, x in (("pos", p), ("neg", n)):
@@ -277,6 +277,11 @@ def sweep_c08(tier, seed):
         add(run_triplet(pre, post, torch.zeros(2, 3, dtype=torch.long), 0, 1.0, -0.6, 0.4, 0.5, 0.3, delayed=False))
         add(run_mstdp(pre, post, [0.7, -1.2, 0.0, 2.0], 0.5, 1.0, 0.4, -0.3, 10.0, 8.0, per_sample=False))
         add(run_mstdp(pre, post, [0.7, -1.2, 0.0, 2.0], 0.5, 1.0, 0.4, -0.3, 10.0, 8.0, per_sample=True))
+        # reward-modulated rule with a unit reward is the pair rule: exercises its delayed / delay-frozen modes
+        for delayed in (True, False):
+            cases += 1
+            f = run_pair(MSTDP, pre, post, ds, 3, 1.0, 0.5, -0.3, 12.0, 9.0, "cumulative", delayed=delayed, check_parts=False, step=lambda tr: tr(1.0, 1.0))
+            add(None if f is None else dict(f, what=f["what"].replace("/MSTDP/pair_sum", "/MSTDP/pair_sum_with_delays")))
     return failures, cases
 
 
